@@ -1,13 +1,18 @@
 /-
-  MF.Proofs.QueryComplete — building blocks for the completeness of the query model w.r.t. G_Q (Task X; the theorem
-  `query_complete` itself is NOT proved yet, see doc/reports/TASK_X_REPORT.md §4):
-  splitting a reading along an append, reading an expression slot, and completeness of an expression slot for the
-  POSITIONED parser (from `MF.Expr.parseExpr_complete`, C07, through the erasure theorem), of WHERE / HAVING and of LIMIT.
+  MF.Proofs.QueryComplete — completeness of the query model (MF/Model/Query.lean) w.r.t. the documented grammar G_Q
+  (MF/Spec/QueryGrammar.lean), eventual-fuel form (`Ev`): every derivation of `QueryD0` (= G_Q without the `expr.*`
+  production) read by a token list without unquoted SAFE_CAST / REPLACE_FIELDS identifiers and followed by `<eof>` is
+  accepted by `parseQueryTop`, with ONE tree for all sufficiently large fuels.
+  Expression slots: `MF.Expr.parseExpr_complete` (C07) through the erasure theorem and the fuel monotonicity of the
+  positioned parser (`parsePExpr_mono`, MF/Proofs/ExprPosTerminates.lean).  No induction over `Expr`.
 -/
 import MF.Proofs.QuerySound
 import MF.Proofs.ExprComplete
+import MF.Proofs.ExprPosTerminates
 namespace MF.Query
 open MF MF.Expr
+
+/-! ## readings -/
 
 theorem matchB_split {a b : List QD} {pre : List Token} (h : matchB (a ++ b) pre = true) :
     ∃ p q, pre = p ++ q ∧ matchB a p = true ∧ matchB b q = true := by
@@ -32,54 +37,839 @@ theorem matchB_e_inv {pre : List Token} {ys : List Tok'} (h : matchB (ys.map QD.
       simp only [List.map_cons, matchB, QD.ok, Bool.and_eq_true, beq_iff_eq] at h
       simp [h.1, ih h.2]
 
-/-- eventually accepted, leaving `rest` (the tree may depend on the fuel in its positions only) -/
-def Acc {α : Type} (p : Nat → QR α) (rest : List Token) : Prop := ∃ n, ∀ f, n ≤ f → ∃ a, p f = .ok (a, rest)
+theorem matchB_nil {pa : List Token} (h : matchB [] pa = true) : pa = [] := by
+  cases pa with
+  | nil => rfl
+  | cons t p => simp [matchB] at h
 
-/-- an expression slot of G_Q followed by a token that does not continue an expression is consumed exactly by the
-positioned expression parser -/
-theorem parsePExpr_acc {ds : List QD} {pre rest : List Token} (he : ExprY ds) (hm : matchB ds pre = true)
-    (hc : ∀ t ∈ pre, isCastLike t = false) (hf : Follow rest) : Acc (fun f => parsePExpr f (pre ++ rest)) rest := by
+theorem matchB_cons {d : QD} {ds : List QD} {pa : List Token} (h : matchB (d :: ds) pa = true) :
+    ∃ t p, pa = t :: p ∧ d.ok t = true ∧ matchB ds p = true := by
+  cases pa with
+  | nil => simp [matchB] at h
+  | cons t p =>
+    simp only [matchB, Bool.and_eq_true] at h
+    exact ⟨t, p, rfl, h.1, h.2⟩
+
+theorem ok_kw {c : QK} {t : Token} (h : (QD.kw c).ok t = true) : qk t.kind = c := by
+  simpa [QD.ok] using h
+
+theorem ok_ident {n : Bytes} {t : Token} (h : (QD.ident n).ok t = true) : qk t.kind = .ident := by
+  simp only [QD.ok, Bool.and_eq_true, beq_iff_eq] at h
+  rw [h.1]; rfl
+
+/-! ## the two token tables: what the expression layer sees of a token the query layer classifies -/
+
+theorem qsym_spec {s : Bytes} {c : QK} (h : qsym s = c) (hc : c ≠ .other) :
+    ∃ p ∈ qsymTable, B p.1 = s ∧ p.2 = c := by
+  unfold qsym at h
+  split at h
+  · rename_i p hp
+    have hb := List.find?_some hp
+    exact ⟨p, List.mem_of_find?_eq_some hp, eq_of_beq hb, h⟩
+  · exact absurd h.symm hc
+
+theorem qk_fact (P : QK → Bool) (Q : TK → Bool)
+    (htab : ∀ p ∈ qsymTable, P p.2 = true → Q (symTK (B p.1)) = true) (hother : P .other = false)
+    (h1 : P .eof = true → Q .eof = true) (h2 : P .ident = true → Q .ident = true)
+    (h3 : P .int = true → Q .int = true) (h4 : P .param = true → Q .param = true)
+    {k : TokKind} (h : P (qk k) = true) : Q (tk k) = true := by
+  cases k with
+  | sym s =>
+    have hc : qsym s ≠ .other := fun e => by
+      simp only [qk, e, hother] at h
+      cases h
+    obtain ⟨p, hp, rfl, he⟩ := qsym_spec rfl hc
+    exact htab p hp (by rw [he]; exact h)
+  | eof => exact h1 h
+  | ident => exact h2 h
+  | int => exact h3 h
+  | param => exact h4 h
+  | bad => simp only [qk, hother] at h; cases h
+  | float => simp only [qk, hother] at h; cases h
+  | string => simp only [qk, hother] at h; cases h
+  | bytes => simp only [qk, hother] at h; cases h
+
+/-- the classes of the query layer behind which an expression cannot continue -/
+def stopK : QK → Bool
+  | .eof | .ident | .comma | .as_ | .from_ | .where_ | .group | .having | .order | .limit | .asc | .desc => true
+  | _ => false
+
+theorem follow_of_stop {rest : List Token} (h : stopK (qcur rest) = true) : Follow rest := by
+  unfold Follow noCont
+  cases rest with
+  | nil => rfl
+  | cons t tl =>
+    have := qk_fact stopK (fun c => (contLevel c).isNone) (by decide +kernel) rfl (fun _ => rfl) (fun _ => rfl)
+      (fun h => absurd h (by decide)) (fun h => absurd h (by decide)) (k := t.kind) h
+    simp only [cur_cons]
+    cases hcl : contLevel (tk t.kind) with
+    | none => rfl
+    | some l => rw [hcl] at this; cases this
+
+/-- classes that cannot start an expression -/
+def noStartK : QK → Bool
+  | .eof | .star | .from_ | .semi | .rparen | .as_ | .all | .distinct => true
+  | _ => false
+
+theorem not_start_of {k : TokKind} (h : noStartK (qk k) = true) : startTK (tk k) = false := by
+  have := qk_fact noStartK (fun c => !startTK c) (by decide +kernel) rfl (fun _ => rfl) (fun h => absurd h (by decide))
+    (fun h => absurd h (by decide)) (fun h => absurd h (by decide)) (k := k) h
+  simpa using this
+
+/-! ## clause starts -/
+
+def clauseIdx : QK → Nat
+  | .from_ => 1 | .where_ => 2 | .group => 3 | .having => 4 | .order => 5 | .limit => 6 | .eof => 7
+  | _ => 0
+
+/-- the rest starts with the keyword of clause number `≥ n` (FROM 1 … LIMIT 6) or is at `<eof>` (7) -/
+def StartGe (n : Nat) (rest : List Token) : Prop := n ≤ clauseIdx (qcur rest)
+
+theorem StartGe.mono {n m : Nat} {R : List Token} (h : StartGe n R) (hm : m ≤ n) : StartGe m R := Nat.le_trans hm h
+
+theorem clause_cases {k : QK} (h : 1 ≤ clauseIdx k) :
+    k = .from_ ∨ k = .where_ ∨ k = .group ∨ k = .having ∨ k = .order ∨ k = .limit ∨ k = .eof := by
+  cases k <;> simp [clauseIdx] at h ⊢
+
+theorem startGe_step {P : List QD → Prop} {c : QK} {n : Nat} (hP : ∀ ds, P ds → ∃ ds', ds = .kw c :: ds')
+    (hn : n ≤ clauseIdx c) {ds : List QD} {p R : List Token} (hd : Opt P ds) (hm : matchB ds p = true)
+    (hR : StartGe n R) : StartGe n (p ++ R) := by
+  cases hd with
+  | none => rw [matchB_nil hm]; exact hR
+  | some h =>
+    obtain ⟨ds', rfl⟩ := hP _ h
+    obtain ⟨t, p', rfl, ht, _⟩ := matchB_cons hm
+    show n ≤ clauseIdx (qk t.kind)
+    rw [ok_kw ht]; exact hn
+
+theorem fromD_head : ∀ ds, FromD ds → ∃ ds', ds = .kw .from_ :: ds' := by
+  intro ds h; cases h <;> exact ⟨_, rfl⟩
+theorem whereD_head : ∀ ds, WhereD ds → ∃ ds', ds = .kw .where_ :: ds' := by
+  intro ds h; cases h; exact ⟨_, rfl⟩
+theorem groupD_head : ∀ ds, GroupD ds → ∃ ds', ds = .kw .group :: ds' := by
+  intro ds h; cases h; exact ⟨_, rfl⟩
+theorem havingD_head : ∀ ds, HavingD ds → ∃ ds', ds = .kw .having :: ds' := by
+  intro ds h; cases h; exact ⟨_, rfl⟩
+theorem orderD_head : ∀ ds, OrderD ds → ∃ ds', ds = .kw .order :: ds' := by
+  intro ds h; cases h; exact ⟨_, rfl⟩
+theorem limitD_head : ∀ ds, LimitD ds → ∃ ds', ds = .kw .limit :: ds' := by
+  intro ds h; cases h <;> exact ⟨_, rfl⟩
+
+theorem kwLike_ident {R : List Token} {s : Bytes} (h : (hd R).isKeywordLike s = true) : qcur R = .ident := by
+  cases R with
+  | nil => simp [hd, Token.isKeywordLike] at h
+  | cons t tl =>
+    simp only [hd_cons, Token.isKeywordLike, Bool.and_eq_true, beq_iff_eq] at h
+    show qk t.kind = .ident
+    rw [h.1]; rfl
+
+/-- what may follow a select item: `,` or a clause start -/
+def ItemFollow (R : List Token) : Prop := qcur R = .comma ∨ StartGe 1 R
+
+structure RestFacts (R : List Token) : Prop where
+  follow : Follow R
+  notAs : qcur R ≠ .as_
+  notIdent : qcur R ≠ .ident
+  notDot : qcur R ≠ .dot
+  notExcept : qcur R ≠ .except
+
+theorem restFacts_of_k {R : List Token} {k : QK} (h : qcur R = k) (hs : stopK k = true) (h1 : k ≠ .as_)
+    (h2 : k ≠ .ident) : RestFacts R :=
+  { follow := follow_of_stop (by rw [h]; exact hs)
+    notAs := by rw [h]; exact h1
+    notIdent := by rw [h]; exact h2
+    notDot := by rw [h]; intro e; rw [e] at hs; cases hs
+    notExcept := by rw [h]; intro e; rw [e] at hs; cases hs }
+
+theorem StartGe.facts {R : List Token} (h : StartGe 1 R) : RestFacts R := by
+  rcases clause_cases h with h | h | h | h | h | h | h <;> exact restFacts_of_k h rfl (by decide) (by decide)
+
+theorem ItemFollow.facts {R : List Token} (h : ItemFollow R) : RestFacts R := by
+  rcases h with h | h
+  · exact restFacts_of_k h rfl (by decide) (by decide)
+  · exact h.facts
+
+theorem starModifiers_ok_of {R : List Token} (h : RestFacts R) : starModifiers R = .ok () := by
+  unfold starModifiers
+  rw [if_neg h.notExcept]
+  split
+  · rename_i hk; exact absurd (kwLike_ident hk) h.notIdent
+  · rfl
+
+/-! ## expression slots -/
+
+theorem exprY_head {ds : List QD} {p : List Token} (he : ExprY ds) (hm : matchB ds p = true) :
+    ∃ t p', p = t :: p' ∧ startTK (tk t.kind) = true := by
+  obtain ⟨e, _, hn, rfl⟩ := he
+  have hy := matchB_e_inv hm
+  have hs := hk_yield_start e hn
+  cases p with
+  | nil =>
+    simp only [List.map_nil] at hy
+    rw [← hy] at hs
+    simp [hk, startTK] at hs
+  | cons t p' =>
+    refine ⟨t, p', rfl, ?_⟩
+    rw [← hy] at hs
+    simpa [hk, proj] using hs
+
+theorem parsePExpr_ev {ds : List QD} {pre rest : List Token} (he : ExprY ds) (hm : matchB ds pre = true)
+    (hc : ∀ t ∈ pre, isCastLike t = false) (hf : Follow rest) :
+    ∃ pe n, ∀ f, n ≤ f → parsePExpr f (pre ++ rest) = .ok (pe, rest) := by
   obtain ⟨e, hp, hn, rfl⟩ := he
   obtain ⟨n, hn'⟩ := parseExpr_complete hp hn (matchB_e_inv hm) hc hf
-  refine ⟨n, fun f hf' => ?_⟩
-  have h := hn' f hf'
+  have h := hn' n (Nat.le_refl _)
   rw [parseExpr_eq_erase] at h
   obtain ⟨a, ha, hea⟩ := Res.map_eq_ok.1 h
   obtain ⟨pe, r⟩ := a
   simp only [er, Prod.mk.injEq] at hea
   obtain ⟨_, rfl⟩ := hea
-  exact ⟨pe, ha⟩
+  refine ⟨pe, n, fun f hf' => ?_⟩
+  rw [parsePExpr_mono hf' (by rw [ha]; intro h; cases h), ha]
 
-/-- `WHERE expr` -/
-theorem tryParseWhere_acc {ds : List QD} {pre rest : List Token} (hd : WhereD ds) (hm : matchB ds pre = true)
-    (hc : ∀ t ∈ pre, isCastLike t = false) (hf : Follow rest) : Acc (fun f => tryParseWhere f (pre ++ rest)) rest := by
+/-! ## aliases, select items -/
+
+theorem alias_some {a : List QD} {pa R : List Token} (hd : AliasD a) (hm : matchB a pa = true) :
+    ∃ x, tryParseAsAlias (pa ++ R) = .ok (some x, R) := by
+  cases hd with
+  | bare n =>
+    obtain ⟨t, p, rfl, ht, hp⟩ := matchB_cons hm
+    rw [matchB_nil hp]
+    have hq : qcur (([t] : List Token) ++ R) = .ident := ok_ident ht
+    exact ⟨⟨none, identOf t⟩, by simp only [tryParseAsAlias, hq]; rfl⟩
+  | as_ n =>
+    obtain ⟨t, p, rfl, ht, hp⟩ := matchB_cons hm
+    obtain ⟨u, p', rfl, hu, hp'⟩ := matchB_cons hp
+    rw [matchB_nil hp']
+    have hq : qcur (([t, u] : List Token) ++ R) = .as_ := ok_kw ht
+    have hq2 : qcur (u :: R) = .ident := ok_ident hu
+    exact ⟨⟨some t.pos, identOf u⟩, by
+      simp only [tryParseAsAlias, hq]
+      simp only [List.cons_append, List.nil_append, List.tail_cons, parseIdent, hq2, if_true, hd_cons, Res.bind_ok]⟩
+
+theorem alias_none {R : List Token} (h1 : qcur R ≠ .as_) (h2 : qcur R ≠ .ident) : tryParseAsAlias R = .ok (none, R) := by
+  unfold tryParseAsAlias
+  split
+  · rename_i h; exact absurd h h1
+  · rename_i h; exact absurd h h2
+  · rfl
+
+theorem alias_follow {a : List QD} {pa R : List Token} (hd : AliasD a) (hm : matchB a pa = true) : Follow (pa ++ R) := by
+  cases hd with
+  | bare n =>
+    obtain ⟨t, p, rfl, ht, _⟩ := matchB_cons hm
+    exact follow_of_stop (by show stopK (qk t.kind) = true; rw [ok_ident ht]; rfl)
+  | as_ n =>
+    obtain ⟨t, p, rfl, ht, _⟩ := matchB_cons hm
+    exact follow_of_stop (by show stopK (qk t.kind) = true; rw [ok_kw ht]; rfl)
+
+theorem qcur_not_star_of_start {t : Token} {p : List Token} (h : startTK (tk t.kind) = true) : qcur (t :: p) ≠ .star := by
+  intro e
+  have := not_start_of (k := t.kind) (by show noStartK (qk t.kind) = true; rw [show qk t.kind = .star from e]; rfl)
+  rw [this] at h; cases h
+
+theorem item_complete {ds : List QD} {p R : List Token} (hd : ItemD0 ds) (hm : matchB ds p = true)
+    (hc : ∀ t ∈ p, isCastLike t = false) (hR : ItemFollow R) :
+    ∃ i, Ev (fun f => parseSelectItem f (p ++ R)) (.ok (i, R)) := by
+  have fR := hR.facts
+  cases hd with
+  | star =>
+    obtain ⟨t, p', rfl, ht, hp⟩ := matchB_cons hm
+    rw [matchB_nil hp]
+    have hq : qcur (([t] : List Token) ++ R) = .star := ok_kw ht
+    refine ⟨.star t.pos, 0, fun f _ => ?_⟩
+    simp only [parseSelectItem, hq, if_true]
+    simp only [List.cons_append, List.nil_append, List.tail_cons, starModifiers_ok_of fR, Res.bind_ok, hd_cons]
+  | expr he =>
+    obtain ⟨t, p', rfl, hs⟩ := exprY_head he hm
+    obtain ⟨pe, n, hn⟩ := parsePExpr_ev he hm hc fR.follow
+    refine ⟨.expr pe, n, fun f hf => ?_⟩
+    have hns : qcur ((t :: p') ++ R) ≠ .star := qcur_not_star_of_start hs
+    simp only [parseSelectItem]
+    rw [if_neg hns, hn f hf]
+    simp only [Res.bind_ok, alias_none fR.notAs fR.notIdent, if_neg fR.notDot]
+  | alias he ha =>
+    obtain ⟨pe', pa, rfl, hme, hma⟩ := matchB_split hm
+    obtain ⟨t, p', rfl, hs⟩ := exprY_head he hme
+    obtain ⟨x, hx⟩ := alias_some (R := R) ha hma
+    obtain ⟨pe, n, hn⟩ := parsePExpr_ev he hme (fun u hu => hc u (by simp only [List.mem_append]; exact Or.inl hu))
+      (alias_follow (R := R) ha hma)
+    refine ⟨.alias pe x, n, fun f hf => ?_⟩
+    have hns : qcur ((t :: p') ++ (pa ++ R)) ≠ .star := qcur_not_star_of_start hs
+    simp only [parseSelectItem]
+    rw [List.append_assoc, if_neg hns, hn f hf]
+    simp only [Res.bind_ok, hx]
+
+theorem item_head {ds : List QD} {p : List Token} (hd : ItemD0 ds) (hm : matchB ds p = true) :
+    ∃ t p', p = t :: p' ∧ (qk t.kind = .star ∨ startTK (tk t.kind) = true) := by
+  cases hd with
+  | star =>
+    obtain ⟨t, p', rfl, ht, _⟩ := matchB_cons hm
+    exact ⟨t, p', rfl, Or.inl (ok_kw ht)⟩
+  | expr he =>
+    obtain ⟨t, p', rfl, hs⟩ := exprY_head he hm
+    exact ⟨t, p', rfl, Or.inr hs⟩
+  | alias he ha =>
+    obtain ⟨pe', pa, rfl, hme, _⟩ := matchB_split hm
+    obtain ⟨t, p', rfl, hs⟩ := exprY_head he hme
+    exact ⟨t, p' ++ pa, rfl, Or.inr hs⟩
+
+/-- the first token of an item does not end the select list behind a comma -/
+theorem item_head_not_end {t : Token} {p : List Token} (h : qk t.kind = .star ∨ startTK (tk t.kind) = true) :
+    qcur (t :: p) ≠ .eof ∧ qcur (t :: p) ≠ .from_ ∧ qcur (t :: p) ≠ .semi ∧ qcur (t :: p) ≠ .rparen := by
+  rcases h with h | h
+  · simp [qcur, h]
+  · refine ⟨?_, ?_, ?_, ?_⟩ <;>
+    · intro e
+      have := not_start_of (k := t.kind) (by show noStartK (qk t.kind) = true; rw [show qk t.kind = _ from e]; rfl)
+      rw [this] at h; cases h
+
+/-- where the select list may end: directly (`tr = false`: a clause start follows) or with a trailing comma before FROM
+or `<eof>` -/
+inductive ListEnd (R : List Token) : Bool → List Token → Prop
+  | plain : StartGe 1 R → ListEnd R false R
+  | trail (t : Token) : qk t.kind = .comma → (qcur R = .from_ ∨ qcur R = .eof) → ListEnd R true (t :: R)
+
+theorem ListEnd.itemFollow {R T : List Token} {tr : Bool} (h : ListEnd R tr T) : ItemFollow T := by
+  cases h with
+  | plain h => exact Or.inr h
+  | trail t ht _ => exact Or.inl ht
+
+theorem ListEnd.loop {R T : List Token} {tr : Bool} (h : ListEnd R tr T) (f : Nat) :
+    resultsLoop (f + 1) T = .ok (([], tr), R) := by
+  cases h with
+  | plain h =>
+    have : qcur R ≠ .comma := by
+      rcases clause_cases h with h | h | h | h | h | h | h <;> simp [h]
+    simp only [resultsLoop, if_neg this]
+  | trail t ht hR =>
+    have hq : qcur (t :: R) = .comma := ht
+    simp only [resultsLoop, hq, if_true, List.tail_cons]
+    rcases hR with h | h <;> simp only [h]
+
+theorem items_complete {ds : List QD} {p : List Token} (hd : SepBy ItemD0 ds) :
+    ∀ {R T : List Token} {tr : Bool}, matchB ds p = true → (∀ t ∈ p, isCastLike t = false) → ListEnd R tr T →
+    ∃ i T1 is, Ev (fun f => parseSelectItem f (p ++ T)) (.ok (i, T1)) ∧
+      Ev (fun f => resultsLoop f T1) (.ok ((is, tr), R)) := by
+  induction hd generalizing p with
+  | one hP =>
+    intro R T tr hm hc hE
+    obtain ⟨i, hi⟩ := item_complete hP hm hc hE.itemFollow
+    exact ⟨i, T, [], hi, 1, fun f hf => by
+      obtain ⟨g, rfl⟩ : ∃ g, f = g + 1 := ⟨f - 1, by omega⟩
+      exact hE.loop g⟩
+  | cons hP _ ih =>
+    intro R T tr hm hc hE
+    obtain ⟨p1, q, rfl, hm1, hmq⟩ := matchB_split hm
+    obtain ⟨tc, p2, rfl, htc, hm2⟩ := matchB_cons hmq
+    obtain ⟨i2, T2, is2, hi2, hl2⟩ := ih hm2 (fun u hu => hc u (by simp [hu])) hE
+    have hcomma : qcur (tc :: (p2 ++ T)) = .comma := ok_kw htc
+    have hcomma' : ∀ l, qcur (tc :: l) = .comma := fun _ => ok_kw htc
+    obtain ⟨i1, hi1⟩ := item_complete (R := tc :: (p2 ++ T)) hP hm1 (fun u hu => hc u (by simp [hu])) (Or.inl hcomma)
+    refine ⟨i1, tc :: (p2 ++ T), i2 :: is2, by simpa [List.append_assoc] using hi1, ?_⟩
+    obtain ⟨n1, hn1⟩ := hi2
+    obtain ⟨n2, hn2⟩ := hl2
+    refine ⟨max n1 n2 + 1, fun f hf => ?_⟩
+    obtain ⟨g, rfl⟩ : ∃ g, f = g + 1 := ⟨f - 1, by omega⟩
+    -- the token behind the comma starts an item
+    obtain ⟨hsub⟩ : Nonempty (SepBy ItemD0 _) := ⟨by assumption⟩
+    have hhead : ∃ t p', p2 = t :: p' ∧ (qk t.kind = .star ∨ startTK (tk t.kind) = true) := by
+      cases hsub with
+      | one hQ => exact item_head hQ hm2
+      | cons hQ _ =>
+        obtain ⟨q1, q2, rfl, hq1, _⟩ := matchB_split hm2
+        obtain ⟨t, p', rfl, h⟩ := item_head hQ hq1
+        exact ⟨t, p' ++ q2, rfl, h⟩
+    obtain ⟨t, p', rfl, ht⟩ := hhead
+    obtain ⟨e1, e2, e3, e4⟩ := item_head_not_end (p := p' ++ T) ht
+    simp only [List.cons_append] at hn1
+    simp only [resultsLoop, hcomma', if_true, List.tail_cons, List.cons_append]
+    simp only [hn1 g (by omega), Res.bind_ok, hn2 g (by omega)]
+
+/-! ## FROM -/
+
+theorem path_complete {ds : List QD} (hd : PathD ds) : ∀ {p T : List Token}, matchB ds p = true → qcur T ≠ .dot →
+    ∃ t p' m, p = t :: p' ∧ qk t.kind = .ident ∧ Ev (fun f => pathLoop f (p' ++ T)) (.ok (m, T)) := by
+  induction hd with
+  | one n =>
+    intro p T hm hT
+    obtain ⟨t, p', rfl, ht, hp⟩ := matchB_cons hm
+    rw [matchB_nil hp]
+    exact ⟨t, [], [], rfl, ok_ident ht, 1, fun f hf => by
+      obtain ⟨g, rfl⟩ : ∃ g, f = g + 1 := ⟨f - 1, by omega⟩
+      simp only [List.nil_append, pathLoop, if_neg hT]⟩
+  | cons n _ ih =>
+    intro p T hm hT
+    obtain ⟨t, p1, rfl, ht, hm1⟩ := matchB_cons hm
+    obtain ⟨d, p2, rfl, hdot, hm2⟩ := matchB_cons hm1
+    obtain ⟨u, p3, m, rfl, hu, n1, hn1⟩ := ih hm2 hT
+    refine ⟨t, d :: u :: p3, identOf u :: m, rfl, ok_ident ht, n1 + 1, fun f hf => ?_⟩
+    obtain ⟨g, rfl⟩ : ∃ g, f = g + 1 := ⟨f - 1, by omega⟩
+    have hq : ∀ l, qcur (d :: l) = .dot := fun _ => ok_kw hdot
+    have hq2 : ∀ l, qcur (u :: l) = .ident := fun _ => hu
+    simp only [List.cons_append, pathLoop, hq, if_true, List.tail_cons, parseIdent, hq2, hd_cons, Res.bind_ok,
+      hn1 g (by omega)]
+
+theorem tableTail_ok {R : List Token} (h : StartGe 1 R) : tableTail R = .ok () := by
+  unfold tableTail
+  rcases clause_cases h with h | h | h | h | h | h | h <;> simp only [h]
+
+theorem from_complete {ds : List QD} {p R : List Token} (hd : FromD ds) (hm : matchB ds p = true) (hR : StartGe 1 R) :
+    ∃ x, Ev (fun f => tryParseFrom f (p ++ R)) (.ok (some x, R)) := by
+  have fR := hR.facts
+  have hR' : qcur R ≠ .lparen ∧ qcur R ≠ .hint := by
+    rcases clause_cases hR with h | h | h | h | h | h | h <;> simp [h]
+  -- both productions: a path, then an optional alias reading `pa`
+  have key : ∀ {pth : List QD} {pp pa : List Token}, PathD pth → matchB pth pp = true → (tf : Token) →
+      qk tf.kind = .from_ → qcur (pa ++ R) ≠ .dot → qcur (pa ++ R) ≠ .lparen → qcur (pa ++ R) ≠ .hint →
+      (a : Option AsAlias) → tryParseAsAlias (pa ++ R) = .ok (a, R) →
+      ∃ x, Ev (fun f => tryParseFrom f (tf :: (pp ++ pa) ++ R)) (.ok (some x, R)) := by
+    intro pth pp pa hpth hmp tf htf h1 h2 h3 a ha
+    obtain ⟨t, p', m, rfl, ht, n, hn⟩ := path_complete hpth (T := pa ++ R) hmp h1
+    have hqf : ∀ l, qcur (tf :: l) = .from_ := fun _ => htf
+    have hqi : ∀ l, qcur (t :: l) = .ident := fun _ => ht
+    cases m with
+    | nil =>
+      refine ⟨⟨tf.pos, .tableName (identOf t) a⟩, n, fun f hf => ?_⟩
+      simp only [tryParseFrom, hqf, if_true, List.cons_append, List.tail_cons, List.append_assoc, parseTableExpr, hqi,
+        parseIdent, hd_cons, Res.bind_ok, hn f hf]
+      simp only [ha, Res.bind_ok, tableTail_ok hR]
+    | cons i m =>
+      refine ⟨⟨tf.pos, .path (identOf t) (i :: m) a⟩, n, fun f hf => ?_⟩
+      simp only [tryParseFrom, hqf, if_true, List.cons_append, List.tail_cons, List.append_assoc, parseTableExpr, hqi,
+        parseIdent, hd_cons, Res.bind_ok, hn f hf]
+      simp only [ha, Res.bind_ok, tableTail_ok hR]
+  cases hd with
+  | plain hp =>
+    obtain ⟨tf, pp, rfl, htf, hmp⟩ := matchB_cons hm
+    have := key (pa := []) hp hmp tf (ok_kw htf) (by simpa using fR.notDot) (by simpa using hR'.1) (by simpa using hR'.2)
+      none (by simpa using alias_none fR.notAs fR.notIdent)
+    simpa using this
+  | alias hp ha =>
+    obtain ⟨tf, pq, rfl, htf, hmq⟩ := matchB_cons hm
+    obtain ⟨pp, pa, rfl, hmp, hma⟩ := matchB_split hmq
+    obtain ⟨x, hx⟩ := alias_some (R := R) ha hma
+    have hk : qcur (pa ++ R) = .ident ∨ qcur (pa ++ R) = .as_ := by
+      cases ha with
+      | bare n => obtain ⟨t, p, rfl, ht, _⟩ := matchB_cons hma; exact Or.inl (ok_ident ht)
+      | as_ n => obtain ⟨t, p, rfl, ht, _⟩ := matchB_cons hma; exact Or.inr (ok_kw ht)
+    exact key hp hmp tf (ok_kw htf) (by rcases hk with h | h <;> simp [h]) (by rcases hk with h | h <;> simp [h])
+      (by rcases hk with h | h <;> simp [h]) (some x) hx
+
+/-! ## WHERE, GROUP BY, HAVING -/
+
+theorem where_complete' {ds : List QD} {p R : List Token} (hd : WhereD ds) (hm : matchB ds p = true)
+    (hc : ∀ t ∈ p, isCastLike t = false) (hf : Follow R) :
+    ∃ x, Ev (fun f => tryParseWhere f (p ++ R)) (.ok (some x, R)) := by
   cases hd with
   | mk he =>
-    cases pre with
-    | nil => simp [matchB] at hm
-    | cons t p =>
-      simp only [matchB, QD.ok, Bool.and_eq_true, beq_iff_eq] at hm
-      obtain ⟨n, hn⟩ := parsePExpr_acc he hm.2 (fun u hu => hc u (by simp [hu])) hf
-      refine ⟨n, fun f hf' => ?_⟩
-      obtain ⟨pe, hpe⟩ := hn f hf'
-      refine ⟨some ⟨t.pos, pe⟩, ?_⟩
-      unfold tryParseWhere
-      simp only [List.cons_append, qcur, hm.1, if_true, List.tail_cons, hpe, Res.bind_ok, hd_cons]
+    obtain ⟨t, p', rfl, ht, hm'⟩ := matchB_cons hm
+    obtain ⟨pe, n, hn⟩ := parsePExpr_ev he hm' (fun u hu => hc u (by simp [hu])) hf
+    have hq : ∀ l, qcur (t :: l) = .where_ := fun _ => ok_kw ht
+    exact ⟨⟨t.pos, pe⟩, n, fun f hf' => by
+      simp only [tryParseWhere, hq, if_true, List.cons_append, List.tail_cons, hn f hf', Res.bind_ok, hd_cons]⟩
 
-/-- `HAVING expr` -/
-theorem tryParseHaving_acc {ds : List QD} {pre rest : List Token} (hd : HavingD ds) (hm : matchB ds pre = true)
-    (hc : ∀ t ∈ pre, isCastLike t = false) (hf : Follow rest) : Acc (fun f => tryParseHaving f (pre ++ rest)) rest := by
+theorem having_complete' {ds : List QD} {p R : List Token} (hd : HavingD ds) (hm : matchB ds p = true)
+    (hc : ∀ t ∈ p, isCastLike t = false) (hf : Follow R) :
+    ∃ x, Ev (fun f => tryParseHaving f (p ++ R)) (.ok (some x, R)) := by
   cases hd with
   | mk he =>
-    cases pre with
-    | nil => simp [matchB] at hm
-    | cons t p =>
-      simp only [matchB, QD.ok, Bool.and_eq_true, beq_iff_eq] at hm
-      obtain ⟨n, hn⟩ := parsePExpr_acc he hm.2 (fun u hu => hc u (by simp [hu])) hf
-      refine ⟨n, fun f hf' => ?_⟩
-      obtain ⟨pe, hpe⟩ := hn f hf'
-      refine ⟨some ⟨t.pos, pe⟩, ?_⟩
-      unfold tryParseHaving
-      simp only [List.cons_append, qcur, hm.1, if_true, List.tail_cons, hpe, Res.bind_ok, hd_cons]
+    obtain ⟨t, p', rfl, ht, hm'⟩ := matchB_cons hm
+    obtain ⟨pe, n, hn⟩ := parsePExpr_ev he hm' (fun u hu => hc u (by simp [hu])) hf
+    have hq : ∀ l, qcur (t :: l) = .having := fun _ => ok_kw ht
+    exact ⟨⟨t.pos, pe⟩, n, fun f hf' => by
+      simp only [tryParseHaving, hq, if_true, List.cons_append, List.tail_cons, hn f hf', Res.bind_ok, hd_cons]⟩
+
+theorem exprs_complete {ds : List QD} {p : List Token} (hd : SepBy ExprY ds) :
+    ∀ {R : List Token}, matchB ds p = true → (∀ t ∈ p, isCastLike t = false) → StartGe 1 R →
+    ∃ e T1 es, Ev (fun f => parsePExpr f (p ++ R)) (.ok (e, T1)) ∧ Ev (fun f => exprListLoop f T1) (.ok (es, R)) := by
+  induction hd generalizing p with
+  | one hP =>
+    intro R hm hc hR
+    obtain ⟨pe, hpe⟩ : ∃ pe, Ev (fun f => parsePExpr f (p ++ R)) (.ok (pe, R)) := by
+      obtain ⟨pe, n, hn⟩ := parsePExpr_ev hP hm hc hR.facts.follow
+      exact ⟨pe, n, hn⟩
+    have hnc : qcur R ≠ .comma := by
+      rcases clause_cases hR with h | h | h | h | h | h | h <;> simp [h]
+    exact ⟨pe, R, [], hpe, 1, fun f hf => by
+      obtain ⟨g, rfl⟩ : ∃ g, f = g + 1 := ⟨f - 1, by omega⟩
+      simp only [exprListLoop, if_neg hnc]⟩
+  | cons hP _ ih =>
+    intro R hm hc hR
+    obtain ⟨p1, q, rfl, hm1, hmq⟩ := matchB_split hm
+    obtain ⟨tc, p2, rfl, htc, hm2⟩ := matchB_cons hmq
+    obtain ⟨e2, T2, es2, ⟨n1, hn1⟩, ⟨n2, hn2⟩⟩ := ih hm2 (fun u hu => hc u (by simp [hu])) hR
+    have hcomma : qcur (tc :: (p2 ++ R)) = .comma := ok_kw htc
+    have hcomma' : ∀ l, qcur (tc :: l) = .comma := fun _ => ok_kw htc
+    obtain ⟨pe, hpe⟩ : ∃ pe, Ev (fun f => parsePExpr f (p1 ++ (tc :: (p2 ++ R)))) (.ok (pe, tc :: (p2 ++ R))) := by
+      obtain ⟨pe, n, hn⟩ := parsePExpr_ev (rest := tc :: (p2 ++ R)) hP hm1 (fun u hu => hc u (by simp [hu]))
+        (follow_of_stop (by rw [hcomma]; rfl))
+      exact ⟨pe, n, hn⟩
+    refine ⟨pe, tc :: (p2 ++ R), e2 :: es2, by simpa [List.append_assoc] using hpe, max n1 n2 + 1, fun f hf => ?_⟩
+    obtain ⟨g, rfl⟩ : ∃ g, f = g + 1 := ⟨f - 1, by omega⟩
+    simp only [exprListLoop, hcomma', if_true, List.cons_append, List.tail_cons, hn1 g (by omega), Res.bind_ok, hn2 g (by omega)]
+
+theorem group_complete {ds : List QD} {p R : List Token} (hd : GroupD ds) (hm : matchB ds p = true)
+    (hc : ∀ t ∈ p, isCastLike t = false) (hR : StartGe 1 R) :
+    ∃ x, Ev (fun f => tryParseGroupBy f (p ++ R)) (.ok (some x, R)) := by
+  cases hd with
+  | mk hs =>
+    obtain ⟨t, p1, rfl, ht, hm1⟩ := matchB_cons hm
+    obtain ⟨b, p2, rfl, hb, hm2⟩ := matchB_cons hm1
+    obtain ⟨e, T1, es, ⟨n1, hn1⟩, ⟨n2, hn2⟩⟩ := exprs_complete hs hm2 (fun u hu => hc u (by simp [hu])) hR
+    have hq : ∀ l, qcur (t :: l) = .group := fun _ => ok_kw ht
+    have hq2 : ∀ l, qcur (b :: l) = .by_ := fun _ => ok_kw hb
+    exact ⟨⟨t.pos, e, es⟩, max n1 n2, fun f hf => by
+      simp only [tryParseGroupBy, hq, if_true, List.cons_append, List.tail_cons, hq2, hn1 f (by omega), Res.bind_ok,
+        hn2 f (by omega), hd_cons]⟩
+
+/-! ## ORDER BY, LIMIT -/
+
+/-- what may follow an ORDER BY item: `,`, LIMIT or `<eof>` -/
+def OrdFollow (R : List Token) : Prop := qcur R = .comma ∨ qcur R = .limit ∨ qcur R = .eof
+
+theorem ordItem_complete {ds : List QD} {p R : List Token} (hd : OrdItemD ds) (hm : matchB ds p = true)
+    (hc : ∀ t ∈ p, isCastLike t = false) (hR : OrdFollow R) :
+    ∃ i, Ev (fun f => parseOrderByItem f (p ++ R)) (.ok (i, R)) := by
+  have hRs : stopK (qcur R) = true ∧ qcur R ≠ .collate ∧ qcur R ≠ .asc ∧ qcur R ≠ .desc := by
+    rcases hR with h | h | h <;> simp [h, stopK]
+  cases hd with
+  | plain he =>
+    obtain ⟨pe, n, hn⟩ := parsePExpr_ev he hm hc (follow_of_stop hRs.1)
+    refine ⟨⟨pe, none⟩, n, fun f hf => ?_⟩
+    simp only [parseOrderByItem, hn f hf, Res.bind_ok, if_neg hRs.2.1]
+    have : tryParseDirection R = (none, R) := by
+      unfold tryParseDirection
+      split
+      · rename_i h; exact absurd h hRs.2.2.1
+      · rename_i h; exact absurd h hRs.2.2.2
+      · rfl
+    rw [this]
+  | asc he =>
+    obtain ⟨pe', pa, rfl, hme, hma⟩ := matchB_split hm
+    obtain ⟨t, p', rfl, ht, hp'⟩ := matchB_cons hma
+    rw [matchB_nil hp']
+    have hq : ∀ l, qcur (t :: l) = .asc := fun _ => ok_kw ht
+    obtain ⟨pe, n, hn⟩ := parsePExpr_ev (rest := t :: R) he hme (fun u hu => hc u (by simp [hu]))
+      (follow_of_stop (by rw [hq]; rfl))
+    refine ⟨⟨pe, some (.asc, t.pos)⟩, n, fun f hf => ?_⟩
+    simp only [parseOrderByItem, List.append_assoc, List.cons_append, List.nil_append, hn f hf, Res.bind_ok]
+    rw [if_neg (by rw [hq]; decide)]
+    simp only [tryParseDirection, hq, List.tail_cons, hd_cons]
+  | desc he =>
+    obtain ⟨pe', pa, rfl, hme, hma⟩ := matchB_split hm
+    obtain ⟨t, p', rfl, ht, hp'⟩ := matchB_cons hma
+    rw [matchB_nil hp']
+    have hq : ∀ l, qcur (t :: l) = .desc := fun _ => ok_kw ht
+    obtain ⟨pe, n, hn⟩ := parsePExpr_ev (rest := t :: R) he hme (fun u hu => hc u (by simp [hu]))
+      (follow_of_stop (by rw [hq]; rfl))
+    refine ⟨⟨pe, some (.desc, t.pos)⟩, n, fun f hf => ?_⟩
+    simp only [parseOrderByItem, List.append_assoc, List.cons_append, List.nil_append, hn f hf, Res.bind_ok]
+    rw [if_neg (by rw [hq]; decide)]
+    simp only [tryParseDirection, hq, List.tail_cons, hd_cons]
+
+theorem ords_complete {ds : List QD} {p : List Token} (hd : SepBy OrdItemD ds) :
+    ∀ {R : List Token}, matchB ds p = true → (∀ t ∈ p, isCastLike t = false) → (qcur R = .limit ∨ qcur R = .eof) →
+    ∃ e T1 es, Ev (fun f => parseOrderByItem f (p ++ R)) (.ok (e, T1)) ∧ Ev (fun f => orderListLoop f T1) (.ok (es, R)) := by
+  induction hd generalizing p with
+  | one hP =>
+    intro R hm hc hR
+    obtain ⟨i, hi⟩ := ordItem_complete hP hm hc (Or.inr hR)
+    have hnc : qcur R ≠ .comma := by rcases hR with h | h <;> simp [h]
+    exact ⟨i, R, [], hi, 1, fun f hf => by
+      obtain ⟨g, rfl⟩ : ∃ g, f = g + 1 := ⟨f - 1, by omega⟩
+      simp only [orderListLoop, if_neg hnc]⟩
+  | cons hP _ ih =>
+    intro R hm hc hR
+    obtain ⟨p1, q, rfl, hm1, hmq⟩ := matchB_split hm
+    obtain ⟨tc, p2, rfl, htc, hm2⟩ := matchB_cons hmq
+    obtain ⟨e2, T2, es2, ⟨n1, hn1⟩, ⟨n2, hn2⟩⟩ := ih hm2 (fun u hu => hc u (by simp [hu])) hR
+    have hcomma : qcur (tc :: (p2 ++ R)) = .comma := ok_kw htc
+    have hcomma' : ∀ l, qcur (tc :: l) = .comma := fun _ => ok_kw htc
+    obtain ⟨i, hi⟩ := ordItem_complete (R := tc :: (p2 ++ R)) hP hm1 (fun u hu => hc u (by simp [hu])) (Or.inl hcomma)
+    refine ⟨i, tc :: (p2 ++ R), e2 :: es2, by simpa [List.append_assoc] using hi, max n1 n2 + 1, fun f hf => ?_⟩
+    obtain ⟨g, rfl⟩ : ∃ g, f = g + 1 := ⟨f - 1, by omega⟩
+    simp only [orderListLoop, hcomma', if_true, List.cons_append, List.tail_cons, hn1 g (by omega), Res.bind_ok, hn2 g (by omega)]
+
+theorem order_complete {ds : List QD} {p R : List Token} (hd : OrderD ds) (hm : matchB ds p = true)
+    (hc : ∀ t ∈ p, isCastLike t = false) (hR : qcur R = .limit ∨ qcur R = .eof) :
+    ∃ x, Ev (fun f => tryParseOrderBy f (p ++ R)) (.ok (some x, R)) := by
+  cases hd with
+  | mk hs =>
+    obtain ⟨t, p1, rfl, ht, hm1⟩ := matchB_cons hm
+    obtain ⟨b, p2, rfl, hb, hm2⟩ := matchB_cons hm1
+    obtain ⟨e, T1, es, ⟨n1, hn1⟩, ⟨n2, hn2⟩⟩ := ords_complete hs hm2 (fun u hu => hc u (by simp [hu])) hR
+    have hq : ∀ l, qcur (t :: l) = .order := fun _ => ok_kw ht
+    have hq2 : ∀ l, qcur (b :: l) = .by_ := fun _ => ok_kw hb
+    exact ⟨⟨t.pos, e, es⟩, max n1 n2, fun f hf => by
+      simp only [tryParseOrderBy, hq, if_true, List.cons_append, List.tail_cons, hq2, hn1 f (by omega), Res.bind_ok,
+        hn2 f (by omega), hd_cons]⟩
+
+theorem int_complete {d : QD} {t : Token} (hd : IntD d) (ht : d.ok t = true) (R : List Token) :
+    ∃ v, parseIntValue (t :: R) = .ok (v, R) := by
+  cases hd with
+  | int raw =>
+    simp only [QD.ok, Bool.and_eq_true, beq_iff_eq] at ht
+    have hq : qcur (t :: R) = .int := by show qk t.kind = .int; rw [ht.1]; rfl
+    exact ⟨.int t.pos t.end t.base t.raw, by simp only [parseIntValue, hq, List.tail_cons, hd_cons]⟩
+  | param n =>
+    simp only [QD.ok, Bool.and_eq_true, beq_iff_eq] at ht
+    have hq : qcur (t :: R) = .param := by show qk t.kind = .param; rw [ht.1]; rfl
+    exact ⟨.param t.pos t.asString, by simp only [parseIntValue, hq, List.tail_cons, hd_cons]⟩
+
+theorem limit_complete {ds : List QD} {p R : List Token} (hD : LimitD ds) (hm : matchB ds p = true)
+    (hR : qcur R = .eof) : ∃ x, tryParseLimit (p ++ R) = .ok (some x, R) := by
+  have hno : (hd R).isKeywordLike (B "OFFSET") = false := by
+    cases hk : (hd R).isKeywordLike (B "OFFSET") with
+    | false => rfl
+    | true => have := kwLike_ident hk; rw [hR] at this; cases this
+  cases hD with
+  | plain hc =>
+    obtain ⟨t, p1, rfl, ht, hm1⟩ := matchB_cons hm
+    obtain ⟨c, p2, rfl, hcok, hm2⟩ := matchB_cons hm1
+    rw [matchB_nil hm2]
+    obtain ⟨v, hv⟩ := int_complete hc hcok R
+    have hq : ∀ l, qcur (t :: l) = .limit := fun _ => ok_kw ht
+    exact ⟨⟨t.pos, v, none⟩, by
+      simp only [tryParseLimit, hq, if_true, List.cons_append, List.nil_append, List.tail_cons, hv, Res.bind_ok,
+        tryParseOffset, hno, hd_cons]
+      rfl⟩
+  | offset hc ho =>
+    obtain ⟨t, p1, rfl, ht, hm1⟩ := matchB_cons hm
+    obtain ⟨c, p2, rfl, hcok, hm2⟩ := matchB_cons hm1
+    obtain ⟨k, p3, rfl, hkok, hm3⟩ := matchB_cons hm2
+    obtain ⟨o, p4, rfl, hook, hm4⟩ := matchB_cons hm3
+    rw [matchB_nil hm4]
+    obtain ⟨v, hv⟩ := int_complete hc hcok (k :: o :: R)
+    obtain ⟨w, hw⟩ := int_complete ho hook R
+    have hq : ∀ l, qcur (t :: l) = .limit := fun _ => ok_kw ht
+    have hk : k.isKeywordLike (B "OFFSET") = true := by simpa [QD.ok] using hkok
+    exact ⟨⟨t.pos, v, some ⟨k.pos, w⟩⟩, by
+      simp only [tryParseLimit, hq, if_true, List.cons_append, List.nil_append, List.tail_cons, hv, Res.bind_ok,
+        tryParseOffset, hk, hw, hd_cons, if_true]⟩
+
+/-! ## optional clauses -/
+
+theorem opt_from {ds : List QD} {p R : List Token} (hd : Opt FromD ds) (hm : matchB ds p = true) (hR : StartGe 2 R) :
+    ∃ x, Ev (fun f => tryParseFrom f (p ++ R)) (.ok (x, R)) ∧ (ds ≠ [] → qcur (p ++ R) = .from_) := by
+  cases hd with
+  | none =>
+    rw [matchB_nil hm]
+    have : qcur R ≠ .from_ := by
+      intro e; unfold StartGe at hR; rw [e] at hR; simp [clauseIdx] at hR
+    exact ⟨none, ⟨0, fun f _ => by simp only [List.nil_append, tryParseFrom, if_neg this]⟩, fun h => absurd rfl h⟩
+  | some h =>
+    obtain ⟨x, hx⟩ := from_complete h hm (hR.mono (by omega))
+    obtain ⟨ds', rfl⟩ := fromD_head _ h
+    obtain ⟨t, p', rfl, ht, _⟩ := matchB_cons hm
+    exact ⟨some x, hx, fun _ => ok_kw ht⟩
+
+theorem opt_where {ds : List QD} {p R : List Token} (hd : Opt WhereD ds) (hm : matchB ds p = true)
+    (hc : ∀ t ∈ p, isCastLike t = false) (hR : StartGe 3 R) :
+    ∃ x, Ev (fun f => tryParseWhere f (p ++ R)) (.ok (x, R)) := by
+  cases hd with
+  | none =>
+    rw [matchB_nil hm]
+    have : qcur R ≠ .where_ := by
+      intro e; unfold StartGe at hR; rw [e] at hR; simp [clauseIdx] at hR
+    exact ⟨none, 0, fun f _ => by simp only [List.nil_append, tryParseWhere, if_neg this]⟩
+  | some h =>
+    obtain ⟨x, hx⟩ := where_complete' h hm hc (hR.mono (by omega)).facts.follow
+    exact ⟨some x, hx⟩
+
+theorem opt_group {ds : List QD} {p R : List Token} (hd : Opt GroupD ds) (hm : matchB ds p = true)
+    (hc : ∀ t ∈ p, isCastLike t = false) (hR : StartGe 4 R) :
+    ∃ x, Ev (fun f => tryParseGroupBy f (p ++ R)) (.ok (x, R)) := by
+  cases hd with
+  | none =>
+    rw [matchB_nil hm]
+    have : qcur R ≠ .group := by
+      intro e; unfold StartGe at hR; rw [e] at hR; simp [clauseIdx] at hR
+    exact ⟨none, 0, fun f _ => by simp only [List.nil_append, tryParseGroupBy, if_neg this]⟩
+  | some h =>
+    obtain ⟨x, hx⟩ := group_complete h hm hc (hR.mono (by omega))
+    exact ⟨some x, hx⟩
+
+theorem opt_having {ds : List QD} {p R : List Token} (hd : Opt HavingD ds) (hm : matchB ds p = true)
+    (hc : ∀ t ∈ p, isCastLike t = false) (hR : StartGe 5 R) :
+    ∃ x, Ev (fun f => tryParseHaving f (p ++ R)) (.ok (x, R)) := by
+  cases hd with
+  | none =>
+    rw [matchB_nil hm]
+    have : qcur R ≠ .having := by
+      intro e; unfold StartGe at hR; rw [e] at hR; simp [clauseIdx] at hR
+    exact ⟨none, 0, fun f _ => by simp only [List.nil_append, tryParseHaving, if_neg this]⟩
+  | some h =>
+    obtain ⟨x, hx⟩ := having_complete' h hm hc (hR.mono (by omega)).facts.follow
+    exact ⟨some x, hx⟩
+
+theorem opt_order {ds : List QD} {p R : List Token} (hd : Opt OrderD ds) (hm : matchB ds p = true)
+    (hc : ∀ t ∈ p, isCastLike t = false) (hR : StartGe 6 R) :
+    ∃ x, Ev (fun f => tryParseOrderBy f (p ++ R)) (.ok (x, R)) := by
+  have hR' : qcur R = .limit ∨ qcur R = .eof := by
+    unfold StartGe at hR
+    rcases clause_cases (Nat.le_trans (by omega) hR) with h | h | h | h | h | h | h <;> simp [h, clauseIdx] at hR ⊢
+  cases hd with
+  | none =>
+    rw [matchB_nil hm]
+    have : qcur R ≠ .order := by rcases hR' with h | h <;> simp [h]
+    exact ⟨none, 0, fun f _ => by simp only [List.nil_append, tryParseOrderBy, if_neg this]⟩
+  | some h =>
+    obtain ⟨x, hx⟩ := order_complete h hm hc hR'
+    exact ⟨some x, hx⟩
+
+theorem opt_limit {ds : List QD} {p R : List Token} (hd : Opt LimitD ds) (hm : matchB ds p = true) (hR : qcur R = .eof) :
+    ∃ x, tryParseLimit (p ++ R) = .ok (x, R) := by
+  cases hd with
+  | none =>
+    rw [matchB_nil hm]
+    exact ⟨none, by simp only [List.nil_append, tryParseLimit, hR]; rfl⟩
+  | some h =>
+    obtain ⟨x, hx⟩ := limit_complete h hm hR
+    exact ⟨some x, hx⟩
+
+/-! ## assembling a whole query -/
+
+theorem aod_complete {a : List QD} {pa X : List Token} (ha : AodD a) (hm : matchB a pa = true)
+    (h1 : qcur X ≠ .all) (h2 : qcur X ≠ .distinct) : ∃ x, tryParseAllOrDistinct (pa ++ X) = (x, X) := by
+  cases ha with
+  | none =>
+    rw [matchB_nil hm]
+    refine ⟨none, ?_⟩
+    simp only [List.nil_append]
+    unfold tryParseAllOrDistinct
+    split
+    · rename_i h; exact absurd h h1
+    · rename_i h; exact absurd h h2
+    · rfl
+  | all =>
+    obtain ⟨t, p, rfl, ht, hp⟩ := matchB_cons hm
+    rw [matchB_nil hp]
+    have hq : qcur (([t] : List Token) ++ X) = .all := ok_kw ht
+    exact ⟨some .all, by simp only [tryParseAllOrDistinct, hq]; rfl⟩
+  | distinct =>
+    obtain ⟨t, p, rfl, ht, hp⟩ := matchB_cons hm
+    rw [matchB_nil hp]
+    have hq : qcur (([t] : List Token) ++ X) = .distinct := ok_kw ht
+    exact ⟨some .distinct, by simp only [tryParseAllOrDistinct, hq]; rfl⟩
+
+theorem select_eval {f : Nat} {tsel : Token} {Y X T1 R0 R1 R2 R3 R4 : List Token} {a : Option AllOrDistinct}
+    {i : SelectItem} {is : List SelectItem} {tr : Bool} {fr : Option From} {w : Option Where} {g : Option GroupBy}
+    {h : Option Having} (hsel : qk tsel.kind = .select) (haod : tryParseAllOrDistinct Y = (a, X)) (hnas : qcur X ≠ .as_)
+    (hi : parseSelectItem f X = .ok (i, T1)) (hl : resultsLoop f T1 = .ok ((is, tr), R0))
+    (hf : tryParseFrom f R0 = .ok (fr, R1)) (hw : tryParseWhere f R1 = .ok (w, R2))
+    (hg : tryParseGroupBy f R2 = .ok (g, R3)) (hh : tryParseHaving f R3 = .ok (h, R4)) :
+    parseSelect f (tsel :: Y) = .ok (⟨tsel.pos, a, i, is, tr, fr, w, g, h⟩, R4) := by
+  have hq : qcur (tsel :: Y) = .select := hsel
+  simp only [parseSelect, hq, if_true, List.tail_cons, haod, if_neg hnas, hi, Res.bind_ok, hl, hf, hw, hg, hh, hd_cons]
+
+def mkQE (s : Select) : Option OrderBy → Option Limit → QueryExpr
+  | none, none => .select s
+  | o, l => .query s o l
+
+theorem suffix_eval {f : Nat} {s : Select} {R R5 rest : List Token} {o : Option OrderBy} {l : Option Limit}
+    (ho : tryParseOrderBy f R = .ok (o, R5)) (hl : tryParseLimit R5 = .ok (l, rest)) (he : qcur rest = .eof) :
+    parseQueryExprSuffix f s R = .ok (mkQE s o l, rest) := by
+  simp only [parseQueryExprSuffix, ho, Res.bind_ok, hl, he]
+  cases o <;> cases l <;> rfl
+
+theorem queryTop_eval {f : Nat} {ts R rest : List Token} {s : Select} {q : QueryExpr} (hsel : qcur ts = .select)
+    (hs : parseSelect f ts = .ok (s, R)) (h1 : qcur R ≠ .setop) (h2 : qcur R ≠ .except)
+    (hq : parseQueryExprSuffix f s R = .ok (q, rest)) (he : qcur rest = .eof) : parseQueryTop f ts = .ok ⟨q⟩ := by
+  have hsq : parseSimpleQueryExpr f ts = .ok (s, R) := by simp only [parseSimpleQueryExpr, hsel, hs]
+  have hqe : parseQueryExpr f ts = .ok (q, rest) := by
+    simp only [parseQueryExpr, hsel, reduceCtorEq, if_false, hsq, Res.bind_ok]
+    exact hq
+  simp only [parseQueryTop, parseQueryStatement, hsel, reduceCtorEq, if_false, hqe, Res.bind_ok, he, if_true]
+
+/-- **Completeness** for G_Q without the `expr.*` production. -/
+theorem queryD0_complete {ds : List QD} {pre rest : List Token} (hd : QueryD0 ds) (hm : matchB ds pre = true)
+    (hc : ∀ t ∈ pre, isCastLike t = false) (hr : qcur rest = .eof) :
+    ∃ q, Ev (fun f => parseQueryTop f (pre ++ rest)) (.ok q) := by
+  cases hd with
+  | mk tr ha his hf hw hg hh ho hl htr =>
+    obtain ⟨tsel, p0, rfl, hts, hm0⟩ := matchB_cons hm
+    obtain ⟨pa, p1, rfl, hma, hm1⟩ := matchB_split hm0
+    obtain ⟨pis, p2, rfl, hmis, hm2⟩ := matchB_split hm1
+    obtain ⟨ptr, p3, rfl, hmtr, hm3⟩ := matchB_split hm2
+    obtain ⟨pf, p4, rfl, hmf, hm4⟩ := matchB_split hm3
+    obtain ⟨pw, p5, rfl, hmw, hm5⟩ := matchB_split hm4
+    obtain ⟨pg, p6, rfl, hmg, hm6⟩ := matchB_split hm5
+    obtain ⟨ph, p7, rfl, hmh, hm7⟩ := matchB_split hm6
+    obtain ⟨po, pl, rfl, hmo, hml⟩ := matchB_split hm7
+    have hcs : ∀ (l : List Token), (∀ t ∈ l, t ∈ tsel :: (pa ++ (pis ++ (ptr ++ (pf ++ (pw ++ (pg ++ (ph ++ (po ++ pl))))))))) →
+        ∀ t ∈ l, isCastLike t = false := fun l hl t ht => hc t (hl t ht)
+    -- the rests, from the end
+    have s6 : StartGe 7 rest := by unfold StartGe; rw [hr]; exact Nat.le_refl 7
+    have s5 : StartGe 6 (pl ++ rest) := startGe_step limitD_head (by decide) hl hml (s6.mono (by omega))
+    have s4 : StartGe 5 (po ++ (pl ++ rest)) := startGe_step orderD_head (by decide) ho hmo (s5.mono (by omega))
+    have s3 : StartGe 4 (ph ++ (po ++ (pl ++ rest))) := startGe_step havingD_head (by decide) hh hmh (s4.mono (by omega))
+    have s2 : StartGe 3 (pg ++ (ph ++ (po ++ (pl ++ rest)))) := startGe_step groupD_head (by decide) hg hmg (s3.mono (by omega))
+    have s1 : StartGe 2 (pw ++ (pg ++ (ph ++ (po ++ (pl ++ rest))))) :=
+      startGe_step whereD_head (by decide) hw hmw (s2.mono (by omega))
+    have s0 : StartGe 1 (pf ++ (pw ++ (pg ++ (ph ++ (po ++ (pl ++ rest)))))) :=
+      startGe_step fromD_head (by decide) hf hmf (s1.mono (by omega))
+    -- clauses
+    obtain ⟨xl, hxl⟩ := opt_limit hl hml hr
+    obtain ⟨xo, no, hxo⟩ := opt_order ho hmo (hcs po (by intro t ht; simp [ht])) s5
+    obtain ⟨xh, nh, hxh⟩ := opt_having hh hmh (hcs ph (by intro t ht; simp [ht])) s4
+    obtain ⟨xg, ng, hxg⟩ := opt_group hg hmg (hcs pg (by intro t ht; simp [ht])) s3
+    obtain ⟨xw, nw, hxw⟩ := opt_where hw hmw (hcs pw (by intro t ht; simp [ht])) s2
+    obtain ⟨xf, ⟨nf, hxf⟩, hff⟩ := opt_from hf hmf s1
+    -- the end of the select list
+    obtain ⟨T, hT, hE⟩ : ∃ T, ptr ++ (pf ++ (pw ++ (pg ++ (ph ++ (po ++ (pl ++ rest)))))) = T ∧
+        ListEnd (pf ++ (pw ++ (pg ++ (ph ++ (po ++ (pl ++ rest)))))) tr T := by
+      cases tr with
+      | false =>
+        have hptr : ptr = [] := matchB_nil (by simpa [trailD] using hmtr)
+        subst hptr
+        exact ⟨_, rfl, ListEnd.plain s0⟩
+      | true =>
+        obtain ⟨tc, p', rfl, htc, hp'⟩ := matchB_cons (d := .kw .comma) (ds := []) (by simpa [trailD] using hmtr)
+        rw [matchB_nil hp']
+        refine ⟨_, rfl, ListEnd.trail tc (ok_kw htc) ?_⟩
+        cases hf with
+        | some hF =>
+          obtain ⟨ds', rfl⟩ := fromD_head _ hF
+          exact Or.inl (hff (by simp))
+        | none =>
+          rcases htr rfl with h | ⟨h1, h2, h3, h4, h5⟩
+          · exact absurd rfl h
+          · subst h1 h2 h3 h4 h5
+            right
+            rw [matchB_nil hmf, matchB_nil hmw, matchB_nil hmg, matchB_nil hmh, matchB_nil hmo, matchB_nil hml]
+            exact hr
+    obtain ⟨i, T1, is, ⟨ni, hni⟩, ⟨nl, hnl⟩⟩ := items_complete his hmis (hcs pis (by intro t ht; simp [ht])) hE
+    -- ALL | DISTINCT, and what follows it
+    obtain ⟨hsub⟩ : Nonempty (SepBy ItemD0 _) := ⟨his⟩
+    have hhead : ∃ t p', pis = t :: p' ∧ (qk t.kind = .star ∨ startTK (tk t.kind) = true) := by
+      cases hsub with
+      | one hQ => exact item_head hQ hmis
+      | cons hQ _ =>
+        obtain ⟨q1, q2, rfl, hq1, _⟩ := matchB_split hmis
+        obtain ⟨t, p', rfl, h⟩ := item_head hQ hq1
+        exact ⟨t, p' ++ q2, rfl, h⟩
+    obtain ⟨t0, p0', hpis, ht0⟩ := hhead
+    have hX : qcur (pis ++ T) ≠ .all ∧ qcur (pis ++ T) ≠ .distinct ∧ qcur (pis ++ T) ≠ .as_ := by
+      rw [hpis]
+      rcases ht0 with h | h
+      · simp [qcur, h]
+      · refine ⟨?_, ?_, ?_⟩ <;>
+        · intro e
+          have := not_start_of (k := t0.kind) (by show noStartK (qk t0.kind) = true; rw [show qk t0.kind = _ from e]; rfl)
+          rw [this] at h; cases h
+    obtain ⟨xa, hxa⟩ := aod_complete (X := pis ++ T) ha hma hX.1 hX.2.1
+    have h45 : qcur (po ++ (pl ++ rest)) ≠ .setop ∧ qcur (po ++ (pl ++ rest)) ≠ .except := by
+      rcases clause_cases (s4.mono (by omega)) with h | h | h | h | h | h | h <;> simp [h]
+    refine ⟨⟨mkQE ⟨tsel.pos, xa, i, is, tr, xf, xw, xg, xh⟩ xo xl⟩, max (max (max ni nl) (max nf nw)) (max (max ng nh) no), fun f hf => ?_⟩
+    have hts' : (tsel :: (pa ++ (pis ++ (ptr ++ (pf ++ (pw ++ (pg ++ (ph ++ (po ++ pl))))))))) ++ rest =
+        tsel :: (pa ++ (pis ++ T)) := by
+      rw [← hT]; simp only [List.cons_append, List.append_assoc]
+    show parseQueryTop f _ = _
+    rw [hts']
+    exact queryTop_eval (ok_kw hts)
+      (select_eval (ok_kw hts) hxa hX.2.2 (hni f (by omega)) (hnl f (by omega)) (hxf f (by omega)) (hxw f (by omega))
+        (hxg f (by omega)) (hxh f (by omega)))
+      h45.1 h45.2 (suffix_eval (hxo f (by omega)) hxl hr) hr
 
 end MF.Query
